@@ -615,7 +615,18 @@ func genCase(r *vh.Rng) Case {
 	switch r.Pick(30, 34, 10, 14, 12) {
 	case 0:
 		op := unOps[r.Intn(len(unOps))]
-		return Case{Kind: "un", Op: op, Var: r.Intn(6), A: sOf(genFloat(r))}
+		a := genFloat(r)
+		if op == "UClamp" && r.Chance(60) { // ties and near-ties of the clamp rounding
+			a = float64(r.Intn(259)-2) + 0.5
+			a = math.Float64frombits(math.Float64bits(a) + uint64(r.Intn(3)) - 1)
+		}
+		if (op == "UInc" || op == "UDec") && r.Chance(30) { // results next to +/-2^53
+			a = p2(1, 53) - float64(r.Intn(4))
+			if r.Bool() {
+				a = -a
+			}
+		}
+		return Case{Kind: "un", Op: op, Var: r.Intn(6), A: sOf(a)}
 	case 1:
 		op := binOps[r.Intn(len(binOps))]
 		a, b := genFloat(r), genFloat(r)
